@@ -29,8 +29,8 @@ ASSUMPTIONS = [
     "E_n[M] is a polynomial in the parameter (by construction of the generator); the interpolation degree is confirmed by an extra evaluation point, otherwise the case is inconclusive",
     "reference engine and laws as in C01; N = 3..4 iterations",
 ]
-TIMEOUT = {"quick": 40, "thorough": 240}
-DEADLINE = {"quick": 70, "thorough": 1700}
+TIMEOUT = {"quick": 25, "thorough": 240}
+DEADLINE = {"quick": 80, "thorough": 1700}
 MIN_DECIDING = {"quick": 15, "thorough": 150}
 NCASES = {"quick": 56, "thorough": 1000}
 
